@@ -1037,7 +1037,7 @@ impl Property for C17 {
                 let out = format!("out/{}.out", b.1);
                 twin.output.push(Res::Paths { paths: vec![out.clone()], extensions: None });
                 twin.writes.push(out);
-                sc.projects.push(Project { dir: "p1".into(), name: Some("lib".into()), imports: vec![], targets: vec![twin], raw_yaml: None });
+                sc.projects.push(Project { dir: "p1".into(), name: Some("lib".into()), imports: vec![], targets: vec![twin], raw_yaml: None, import_paths: Default::default() });
                 sc.projects[0].imports.push(("lib".into(), 1));
                 sc.files.push(FileSpec { path: "p1/out".into(), kind: FileKind::Dir });
                 if let Some(ta) = sc.projects[0].targets.iter_mut().find(|x| x.name == a.1) {
@@ -1297,7 +1297,7 @@ impl Property for C20 {
             let out = format!("out/{}.out", agg_name);
             twin.output.push(Res::Paths { paths: vec![out.clone()], extensions: None });
             twin.writes.push(out);
-            sc.projects.push(Project { dir: "p1".into(), name: Some("lib".into()), imports: vec![], targets: vec![twin], raw_yaml: None });
+            sc.projects.push(Project { dir: "p1".into(), name: Some("lib".into()), imports: vec![], targets: vec![twin], raw_yaml: None, import_paths: Default::default() });
             sc.projects[0].imports.push(("lib".into(), 1));
             sc.files.push(FileSpec { path: "p1/out".into(), kind: FileKind::Dir });
             sc.projects[0].targets[a].deps.push(DepRef { project: 1, target: agg_name.clone(), via_dep: true, via_output: false, qualified: true });
